@@ -118,6 +118,8 @@ def backend_corpus(seed, tier):
         gs.append(('wide%d' % i, gram.wide_grammar(rnd, nt=rnd.randint(56, 62))))
     for i in range(6 if tier == 'quick' else 40):
         gs.append(('mark%d' % i, gram.marker_grammar(rnd)))
+    for i in range(6 if tier == 'quick' else 40):
+        gs.append(('rrp%d' % i, gram.rr_prec_grammar(rnd)))
     for i in range(1 if tier == 'quick' else 4):
         gs.append(('wop%d' % i, gram.wide_operator_grammar(rnd, nfill=rnd.randint(60, 66), nops=rnd.randint(5, 8))))
     n = 300 if tier == 'quick' else 3000
